@@ -133,5 +133,5 @@ KERNELS = [
     K("c02::k_off_roundtrip", pre=lambda a: And(valid_ts(a[0], a[1]), off_ok(a[2])),
       claims=[("Offset::to_timestamp(Offset::to_datetime(t)) == t (Ok, equal fields, == holds)",
                lambda a, o: And(o.is_some, o.some.is_some, o.some.some[0][0].i == a[0], o.some.some[0][1].i == a[1], o.some.some[1].b))],
-      bounds=B_TS, split=(0, {"quick": 16, "thorough": 64})),
+      bounds=B_TS, split=(0, 256), tier="thorough", timeout=600),
 ]
